@@ -24,7 +24,14 @@ def post_copy_covers_all(ck: Checker, rule: str) -> None:
         it = h.ast.iter if h.kind == "for" else None
         src = it.func.value if isinstance(it, ast.Call) and is_method_call(it, "items", "keys", "values") else it
         ok, why = False, norm(it) if it is not None else "?"
-        if isinstance(src, ast.Name):
+        from ..an import order_source
+
+        if it is not None:
+            want = order_source(g, h, ast.Name(id="oids", ctx=ast.Load()), fn.has_param)
+            got = order_source(g, h, it, fn.has_param)
+            if got == want and not any(x.split(":")[0] in ("filtered", "collapsed") for x in got):
+                ok = True
+        if not ok and isinstance(src, ast.Name):
             if src.id == "oids":
                 ok = True
             for b in collection_builds(g, fn.node, src.id):
